@@ -98,6 +98,16 @@ static TICK_NS: AtomicU64 = AtomicU64::new(1);
 static CLOCK_READS: AtomicU64 = AtomicU64::new(0);
 static ENT_SEED: AtomicU64 = AtomicU64::new(0);
 static ENT_CTR: AtomicU64 = AtomicU64::new(0);
+/// entropy drawn by every thread other than the run's own: a stream of its own, so that a helper or
+/// lingering thread that happens to draw (a new thread's hash-map keys) never shifts what the run thread draws
+static ENT_CTR_OTHER: AtomicU64 = AtomicU64::new(0);
+thread_local! {
+    static RUN_THREAD: std::cell::Cell<bool> = const { std::cell::Cell::new(false) };
+}
+/// Mark the calling thread as the run's own thread (the one that executes the scenario).
+pub fn mark_run_thread() {
+    RUN_THREAD.with(|c| c.set(true));
+}
 
 /// 2025-06-15T15:06:40Z
 pub const EPOCH_REALTIME_NS: u64 = 1_750_000_000 * 1_000_000_000;
@@ -179,6 +189,7 @@ pub unsafe extern "C" fn time(t: *mut libc::time_t) -> libc::time_t {
 }
 
 static GETRANDOM_CALLS: AtomicU64 = AtomicU64::new(0);
+pub static DEBUG_ENTROPY: AtomicBool = AtomicBool::new(false);
 pub fn getrandom_calls() -> u64 {
     GETRANDOM_CALLS.load(Relaxed)
 }
@@ -187,11 +198,20 @@ pub fn getrandom_calls() -> u64 {
 pub unsafe extern "C" fn getrandom(buf: *mut c_void, len: size_t, flags: c_uint) -> ssize_t {
     if ACTIVE.load(Relaxed) {
         GETRANDOM_CALLS.fetch_add(1, Relaxed);
-        let seed = ENT_SEED.load(Relaxed);
+        if DEBUG_ENTROPY.load(Relaxed) {
+            let mut name = [0u8; 32];
+            libc::pthread_getname_np(libc::pthread_self(), name.as_mut_ptr().cast(), 32);
+            let n = name.iter().position(|b| *b == 0).unwrap_or(32);
+            let msg = format!("getrandom len={len} ctr={}/{} tid={} thread={}\n", ENT_CTR.load(Relaxed), ENT_CTR_OTHER.load(Relaxed), libc::syscall(libc::SYS_gettid), String::from_utf8_lossy(&name[..n]));
+            raw3(libc::SYS_write, 2, msg.as_ptr() as usize, msg.len());
+        }
+        let own = RUN_THREAD.try_with(std::cell::Cell::get).unwrap_or(false);
+        let seed = ENT_SEED.load(Relaxed) ^ if own { 0 } else { 0x07E4_5EED_0DD5_7EA3 };
+        let ctr = if own { &ENT_CTR } else { &ENT_CTR_OTHER };
         let out = buf as *mut u8;
         let mut i = 0usize;
         while i < len {
-            let c = ENT_CTR.fetch_add(1, SeqCst);
+            let c = ctr.fetch_add(1, SeqCst);
             let v = crate::prng::mix(seed ^ crate::prng::mix(c)).to_le_bytes();
             let n = (len - i).min(8);
             core::ptr::copy_nonoverlapping(v.as_ptr(), out.add(i), n);
@@ -936,10 +956,17 @@ pub fn begin_run(entropy_seed: u64) {
     TICK_NS.store(1, SeqCst);
     ENT_SEED.store(entropy_seed, SeqCst);
     ENT_CTR.store(0, SeqCst);
+    ENT_CTR_OTHER.store(0, SeqCst);
     ACTIVE.store(true, SeqCst);
 }
 pub fn end_run() {
     ACTIVE.store(false, SeqCst);
+}
+/// Move the run's entropy stream to a fixed position: whatever consumed entropy before this point
+/// (one-time initialisation of process-wide singletons in the first run of a process) does not shift
+/// what is drawn after it.
+pub fn entropy_rewind(to: u64) {
+    ENT_CTR.store(to, SeqCst);
 }
 
 
